@@ -22,6 +22,21 @@ Proof.
   rewrite Hk in H. rewrite orb_false_r in H. exact H.
 Qed.
 
+(* the same, stated on the two presence bits (what the value-level model of Model/SelectClauses.v refines to) *)
+Theorem take_table_sound_b {F} (uf bare : F -> bool) fs allow :
+  take_table uf bare fs allow = true ->
+  forall d f, In (d, f) fs -> forall ordered ho hl,
+    (allow && take_known_b (uf f) ordered ho hl) = false ->
+    forallb (supported d) (take_uses_b (uf f) (bare f) ordered ho hl) = true.
+Proof.
+  unfold take_table. intros H d f Hin ordered ho hl Hk.
+  rewrite forallb_forall in H. specialize (H _ Hin). cbn [fst snd] in H.
+  rewrite forallb_forall in H. specialize (H ordered (in_bools _)).
+  rewrite forallb_forall in H. specialize (H ho (in_bools _)).
+  rewrite forallb_forall in H. specialize (H hl (in_bools _)).
+  rewrite Hk in H. rewrite orb_false_r in H. exact H.
+Qed.
+
 (* an operator without a usable implementation -- `null` body or none at all -- is a compile error of the model *)
 Theorem unsupported_is_error ops natives d op :
   existsb (leqb op) natives = false -> resolve_op ops d op <> Some false -> op_outcome ops natives d op = CompileError.
